@@ -433,7 +433,8 @@ the two `move_up` passes returns at least one alternative, every alternative is 
 **Excluded** (`Excluded t`, decidable).  The normal form contains exactly three kinds of node whose printed form is not
 (faithfully) in the notation — they are created by the passes AFTER `parse`, which is why the parser accepts the source text
 but not the printed text: `Ellipsis` over a `List` (bracket pass: `[[a b]...]`, printed with braces), `Ellipsis` over an
-`Ellipsis` (bracket pass: `[[a...]...]`, printed `a......`), `FlattenedAxis` over a `ConcatenatedAxis` (first `move_up` pass:
+`Ellipsis` over anything but the anonymous axis (bracket pass: `[[a...]...]`, printed `a......`; `......` itself, an ellipsis over
+`...`, is NOT excluded: it re-parses to the same tree), `FlattenedAxis` over a `ConcatenatedAxis` (first `move_up` pass:
 `((a + b) -> c)`; bracket pass: `[([(a + b)])]`; printed `((a + b))`).  Each comes with a `decide`d witness that it is necessary
 (`excluded_patterns_necessary`).  `Excluded` additionally contains the restrictions of `print_parse_partial` that are still open;
 for these the round trip does hold on the witnesses (`excluded_open_restrictions`), they are restrictions of the proof.
@@ -528,7 +529,7 @@ theorem excluded_open_restrictions :
 theorem not_excluded_samples :
     (["a b c", "a (b c) -> (a b) c", "a [b c] 1, d -> a d", "(a + b) c", "(a -> b) c, d", "(a , b) (c -> d)", "[[a] b] c",
       "a ->", ", a", "", "a... b", "[a...]", "(a b)...", "... a", "(a + 1)... [b]... 2", "a (b (c d)) -> , ()",
-      "[a [b]] c", "([a]) [[b]...]"].all (fun s => !excludedOf s)) = true := by
+      "[a [b]] c", "([a]) [[b]...]", "b ......", "[[...]...]"].all (fun s => !excludedOf s)) = true := by
   decide +kernel
 
 example : ∃ y, parseOp "a [b c]... (d + 1) -> a, (d e)".toList = .ok y ∧
